@@ -44,7 +44,7 @@ FaultClasses == {"unknown", "toomany", "strforid", "badident", "toonew_block", "
 MultiCases == {[k |-> "multi", faults |-> F] : F \in {G \in SUBSET FaultClasses : Cardinality(G) \in {2, 3}}}
 \* C07: an unknown element between the sub-elements of every block that admits optional sub-elements
 Payloads == {"kw0", "kw_num", "kw_str_ident", "kw3", "blk_empty", "blk_scalars", "blk_nested1", "blk_nested2",
-             "blk_known_inside", "blk_comment", "kw_comment", "blk_unbalanced_inner_kw", "kw_with_block", "kw_with_two_blocks", "blk_digit_tag", "blk_long_tag"}
+             "blk_known_inside", "blk_comment", "kw_comment", "blk_unbalanced_inner_kw", "kw_with_block", "kw_with_two_blocks", "blk_digit_tag", "blk_long_tag", "blk_same_tag_inside"}
 SkipCases(e) == {[k |-> "skip", e |-> e, nkids |-> n, at |-> a, payload |-> p, next |-> "-"] : n \in 0..2, a \in 0..2, p \in Payloads}
                 \* the stop list: a keyword payload directly in front of EVERY sub-element of the block
                 \cup {[k |-> "skip", e |-> e, nkids |-> 1, at |-> 0, payload |-> p, next |-> Elem[e].kids[i].tag] :
